@@ -20,10 +20,10 @@ from ..gen import c11_gen as GEN
 
 PID = "C11"
 COQ_HEADER = ("From Coq Require Import List NArith ZArith.\nImport ListNotations.\n"
-              "From SK Require Import lib.Tok lib.LGraph model.C11_Model model.C11_State model.C11_Partial model.C11_Keys model.C11_Attr model.C11_Orbit.\nLocal Open Scope N_scope.\n")
+              "From SK Require Import lib.Tok lib.LGraph model.C11_Model model.C11_State model.C11_Partial model.C11_Keys model.C11_Attr model.C11_Orbit model.C11_Order model.C11_SigObs.\nLocal Open Scope N_scope.\n")
 SHARD = 100
-IMPL_TIMEOUT = 600
-COQ_TIMEOUT = 600
+IMPL_TIMEOUT = 300      # the stage takes 7 s on 16 idle cores (40 CPU-s); a lost pool worker ends it after this bound, not later
+COQ_TIMEOUT = 300       # per shard of 100 cases (8 CPU-s at most since the cases are dealt round-robin)
 
 RULE = ("aut: labelled graphs (all isomorphism classes up to 3 nodes over {C,O}x{hcount 0,1}x{single,double}; 4 nodes: all 705 classes over "
         "{C,O}x{single,double} [the labels the exact analysis sees] plus, quick: a seeded sample of 1500 / thorough: all 9291 classes with "
@@ -41,7 +41,7 @@ EXPLANATION = ("Exhaustive sub-space (both tiers): every labelled graph up to is
                "Everything else is seeded random / "
                "corpus sampling.  Theorems (coq/props/C11.v, all closed under the global context): C11_vocabulary, C11_aut_count, C11_aut_group, "
                "C11_vf2_contract, C11_vf2_contract_items, C11_orbits_exact, C11_orbits_partition, C11_components, C11_anchors, C11_object_state, C11_wl_never_splits, C11_wl_partition, C11_wfb_sound, "
-               "C11_dedup_sublist, C11_dedup_first_of_class, C11_dedup_idempotent, C11_partial_prune, C11_partial_prune_hosts, C11_prune_complete, C11_rep_ok, C11_prune_complete_aut, C11_prune_first_of_class, C11_prune_same_results, C11_configured_labels_only, C11_key_options, C11_rule_labels.")
+               "C11_dedup_sublist, C11_dedup_first_of_class, C11_dedup_idempotent, C11_partial_prune, C11_partial_prune_hosts, C11_prune_complete, C11_rep_ok, C11_prune_complete_aut, C11_prune_first_of_class, C11_prune_same_results, C11_configured_labels_only, C11_key_options, C11_rule_labels, C11_orbit_accuracy, C11_aut_observable, C11_wl_never_splits_reported, C11_orbit_accuracy_all, C11_orbit_order.")
 TRUSTED_BASE = [
     "Coq 8.16.1 kernel + vm_compute (no native_compute)",
     "hand-written model coq/model/C11_Model.v tied to synkit/Graph/Matcher/{automorphism,auto_est,dedup_matches}.py and the pruning call of "
@@ -230,7 +230,11 @@ def _impl_aut(case):
     from synkit.Graph.Matcher.automorphism import Automorphism
     from synkit.Graph.Matcher.auto_est import AutoEst
     G = GG.to_nx(case["g"])
-    return _aut_obs(G) + [_oa_obs(AutoEst(G).fit().orbits, Automorphism(G).orbits, confusion=False)]
+    est, A = AutoEst(G).fit(), Automorphism(G)
+    oi = est.orbit_index
+    # the reported lists IN ORDER (Automorphism._sorted_orbits; AutoEst.groups) and the derived views (model/C11_Order.v)
+    order = [[sorted(o) for o in A.orbits], [list(x) for x in est.groups], [[oi[n]] if n in oi else [] for n in G.nodes()], est.n_orbits]
+    return _aut_obs(G) + [_oa_obs(est.orbits, A.orbits, confusion=False), order]
 
 
 def _aut_obs_keys(G, nk, ek):
@@ -390,6 +394,46 @@ IDEM_CFGS = (1, 3, 7, 8, 10)
 # graph_automorphisms(P, ignore_node_attrs=...): the default, identifiers not ignored (atom_map then separates every atom),
 # labels ignored as well (more symmetries); model: C11_Attr.run_dedup_skip on the attribute dictionaries of P
 SKIPS = (("atom_map",), (), ("atom_map", "element"), ["hcount", "atom_map", "charge"])
+
+
+_SIG_HELPERS = ("_make_host_repr", "_prepare_pattern_orbits", "_free_sig_from_pattern_orbits", "_free_sig_host_only", "_anchor_sig")
+
+
+def _sig_helpers():
+    """the private helpers deduplicate_matches_with_anchor is composed of (None if a refactoring removed one: the
+    intermediate values are then not observed - model term and observable both drop the entry)"""
+    import synkit.Graph.Matcher.dedup_matches as DM
+    hs = [getattr(DM, n, None) for n in _SIG_HELPERS]
+    return None if any(h is None for h in hs) else hs
+
+
+def _sig_obs(case):
+    """INTERMEDIATE values: the prepared pattern orbits and the signature of every match, for five of the configurations
+    (model: C11_SigObs.run_sigs = anchor_signature of proof/C11_Sig.v); ValueError = []"""
+    from synkit.Graph.Matcher.automorphism import Automorphism
+    from synkit.Graph.Matcher.auto_est import AutoEst
+    mk, prep, fsp, fsh, asig = _sig_helpers()
+    P, H = GG.to_nx(case["p"]), GG.to_nx(case["h"])
+    est = AutoEst(P, node_attrs=WL_ATTRS4, edge_attrs=["order"]).fit()
+    ap, ah = Automorphism(P), Automorphism(H)
+    ho = list(ah.orbits)
+    out = []
+    for porbs, anchor, horbs in ((est.orbits, est.anchor_component, None), (ap.orbits, ap.anchor_component, None), (None, None, ho),
+                                 (ap.orbits, None, ho), (None, None, _drop_last_orbit(ho))):
+        ms = [dict((p, h) for p, h in m) for m in case["ms"]]
+        free, anchored = prep(porbs, anchor or frozenset())
+        use_pattern = bool(free) or bool(anchored)
+        sg = []
+        for m in ms:
+            try:
+                hr = mk(horbs)
+                fs = fsp(m, free, hr) if use_pattern else fsh(m, hr)
+                parts = [[list(a), list(b)] for a, b in fs] if use_pattern else [[[], list(fs[0])]]
+                sg.append([[parts, [[a, b] for a, b in asig(m, anchored)]]])
+            except ValueError:
+                sg.append([])
+        out.append([[[list(o) for o in free], list(anchored)], sg])
+    return out
 
 
 def _skip_obs(case):
@@ -702,7 +746,7 @@ def impl(case):
     if k == "dedup":
         res = _impl_dedup(case)
         raw, kept = _pm_lists(case)
-        return [[[res[:N_OLD], True, True]] + res[N_OLD:N_OLD + 8], [0, _indices(raw, kept)]] + res[N_OLD + 8:] + [_idempotent_flags(case), _skip_obs(case)]
+        return [[[res[:N_OLD], True, True]] + res[N_OLD:N_OLD + 8], [0, _indices(raw, kept)]] + res[N_OLD + 8:] + [_idempotent_flags(case), _skip_obs(case)] + ([_sig_obs(case)] if _sig_helpers() else [])
     if k == "hist":
         return _impl_hist(case)
     if k == "keys":
@@ -720,7 +764,8 @@ MONO_BUDGET = 600000      # ~1 s of vm_compute (measured: 2e-6 s per unit)
 DEDUP_BUDGET = 2000000
 
 
-AUT_BUDGET = 800          # automorphisms of one component the model is asked to enumerate (orbit union is quadratic)
+AUT_BUDGET = 1200         # automorphisms of one component the model is asked to enumerate (orbit union is quadratic;
+                          # K4,4 with 1152: 5 s now that the observable evaluates the analysis once)
 
 
 def _count_auts(nodes, lab, adj, cap):
@@ -825,7 +870,7 @@ def coq_case(case):
                 return None
         if case.get("attr"):
             return _coq_keys(case["g"], None, None)
-        return "run_aut_all %s" % _coq_graph(case["g"])
+        return "run_aut_full %s" % _coq_graph(case["g"])
     if k == "dedup":
         if not (_in_domain(case["p"]) and _in_domain(case["h"])):
             return None
@@ -838,9 +883,10 @@ def coq_case(case):
                 "t_idx (dedup_anchor (@snd nat mapping) (indexed ms) None [] (Some (ho ++ [node_ids h]))); "
                 "t_idx (dedup_anchor (@snd nat mapping) (indexed ms) None [] (Some (node_ids h :: ho))); "
                 "t_idx (partial_prune_hosts (@snd nat mapping) n_exact [h; h] 10 (indexed ms)); tlist tbool [%s]; "
-                "(let pa := %s in L [%s])])"
+                "(let pa := %s in L [%s])%s])"
                 % (_coq_graph(case["h"]), _coq_maps(case["ms"]), _coq_graph(case["p"]), _coq_maps(raw), "; ".join(["true"] * len(IDEM_CFGS)),
-                   pa, "; ".join("run_dedup_skip %s pa ms" % clist([cN(kc(k)) for k in skip]) for skip in SKIPS)))
+                   pa, "; ".join("run_dedup_skip %s pa ms" % clist([cN(kc(k)) for k in skip]) for skip in SKIPS),
+                   ("; run_sigs %s h ms" % _coq_graph(case["p"])) if _sig_helpers() else ""))
     if k == "prune":
         worker_init()
         r = _reactor(case, "front")
@@ -1228,7 +1274,7 @@ def neighbours(case, rng):
 
 def _dedup_results(obs):
     """flat list of the per-configuration results of a dedup observable"""
-    return list(obs[0][0][0]) + list(obs[0][1:]) + list(obs[2:-2]) + [obs[1]]
+    return list(obs[0][0][0]) + list(obs[0][1:]) + list(obs[2:2 + 3]) + [obs[1]]
 
 
 def nontrivial(case, obs):
